@@ -66,7 +66,10 @@ def run(oc, tier, seed, model_available, escalate):
         ru.write_tree(scr, {p: (c, ru.BASE_NS + 77 * 10**9) for p, c in scraped.items()})
         out = os.path.join(d, out_name)
         os.makedirs(out)
-        rc, _ = ru.run_main(["-i", scr, "-d", db, "--filescraping_recovery", "-o", out, "--silent"])
+        logopt = ["-l", os.path.join(d, "scrape.log")] if i % 3 == 1 else []      # with a log file: every message is also written there
+        rc, _ = ru.run_main(["-i", scr, "-d", db, "--filescraping_recovery", "-o", out, "--silent"] + logopt)
+        if logopt:
+            oc.count("with --log")
         oc.oracle_cases += 1
         got = {}
         for r_, _ds, fs in os.walk(out):
